@@ -6,6 +6,7 @@
   types and the code tables (whose content C16 pins to the RFC numbers).
 -/
 import Rl2tp.Proofs.SpecMsg
+import Rl2tp.Proofs.Utf8
 namespace Rl2tp.C05
 open Spec
 
@@ -51,6 +52,17 @@ theorem decodeAvps_eq_spec (b : Bytes) :
 theorem decodePayload_eq_parse (t : UInt16) (p : Bytes) :
     viewAvp ((decodeAvp t : M Bytes DErr AVP) p) = Spec.parsePayload t p :=
   decodeAvp_view t p
+
+/-- "UTF-8 constraints": the specification's text predicate (a transcription of Unicode table 3-7, the one the
+    four text AVPs and the two optional messages are checked with) accepts exactly the octet strings that are the
+    UTF-8 encoding of a sequence of Unicode scalar values — encoding as defined by Lean's core library, not by us -/
+theorem utf8_valid_iff_encoding (bs : Bytes) :
+    Spec.Utf8.valid bs = true ↔ ∃ cs : List Char, bs = cs.flatMap String.utf8EncodeChar :=
+  Spec.Utf8.valid_iff_encoding bs
+
+/-- … i.e. exactly the byte arrays a Lean `String` can be made of -/
+theorem utf8_valid_iff_isValidUTF8 (bs : Bytes) : Spec.Utf8.valid bs = true ↔ bs.toByteArray.IsValidUTF8 :=
+  Spec.Utf8.valid_iff_isValidUTF8 bs
 
 /-! non-vacuity: the specification accepts the README's example and rejects it when Length lies -/
 def readme : Bytes := [0x13, 0x20, 0, 0x14, 0, 2, 0, 3, 0, 4, 0, 5, 0, 8, 0, 0, 0, 0, 0, 1]
